@@ -5,6 +5,11 @@ import PhyVerif.Model.C15b
 import PhyVerif.Spec.C15b
 import PhyVerif.Lemmas.C15b
 import PhyVerif.Spec.C07
+import PhyVerif.Model.Fl
+import PhyVerif.Lemmas.Fl
+import PhyVerif.Model.C15c
+import PhyVerif.Spec.C15c
+import PhyVerif.Lemmas.C15c
 /-!
 # C15 — correlograms count exactly the spike pairs in each lag bin
 Only property theorems + non-vacuity examples; proofs in `Lemmas/C15.lean`.
@@ -196,4 +201,207 @@ example : GridOK [0, 0, 1/4, 3/4, 1] 4 (1/2) (3/2) [0, 0, 1, 3, 4] 2 where
 example : specSeconds [0, 0, 1/4, 3/4, 1] [7, 2, 7, 2, 7] [7, 5, 2] (1/2) 1 =
     [[[1, 1], [0, 0], [1, 2]], [[0, 0], [0, 0], [0, 0]], [[2, 0], [0, 0], [0, 1]]] := by decide +kernel
 
+/-! ## Third part (`Model/C15c.lean`): the float → integer conversions as the float unit computes them -/
+
+/-- THE WHOLE CALL ON DOUBLES.  Spike times, rate, bin and window are doubles (read as the rationals they denote);
+every float operation of `correlograms` is the exact operation followed by IEEE-754 binary64 rounding
+(`Fl.roundDouble`): `samples = trunc(fl(t·rate))`, `binsize = trunc(fl(rate·clip(bin)))`,
+`winsize = 2·trunc(fl(fl(.5·clip(window))/clip(bin)))+1`.  For a positive rate, non-decreasing times, any labelling
+and any duplicate-free caller list containing the labels in use, and a bin of at least one sample, the call
+returns exactly the SAMPLE-LEVEL pair counts for THOSE integers: entry (i, j, k) = number of pairs a before b with
+a in `ids[i]`, b in `ids[j]`, `⌊(s_b − s_a) / binsize⌋ = k`, k up to `winsize // 2` (symmetrised as `sym_*`
+describe).  No exactness hypothesis: decimal bins/windows (0.1 s / 2 s gives 21 bins because `fl(1.0/0.1) = 10`
+although the exact quotient of the two doubles is below 10), non-grid spike times, any rate.
+`FlDom` (every product/quotient zero or in the normal range of binary64, samples below 2^63) is the domain on
+which `roundDouble` IS the hardware's result and `astype(int64)` is defined; the proof does not need it
+(`roundDouble` is a total, monotone function), it delimits what the statement says about the real code.
+Outside `FlDom`, observed on the real code: times `[0, 1e300]` at rate `1e10` — the product is `inf`, `astype(int64)`
+yields INT64_MIN with a RuntimeWarning and `ravel_multi_index` raises ValueError; times `[0, 1e-320, 3e-320]` at 1 kHz —
+subnormal products, all samples 0 (here the same as the model, not in general).
+The real code rejects (AssertionError): rate ≤ 0, decreasing times, a bin below one sample
+(`correlogramsFl_rejects`); times and labels of different lengths. -/
+theorem correlogramsFl_eq_spec (times : List Rat) (sc : List Int) (ids : List Nat) (rate bin window : Rat) (sym : Bool)
+    (_hdomF : FlDom times rate bin window)
+    (hr : 0 < rate) (hsorted : times.Pairwise (· ≤ ·)) (hlen : sc.length = times.length) (hdom : InDom sc ids)
+    (hb : 1 ≤ binsizeOfFl rate bin) :
+    correlogramsFl times sc (some ids) rate bin window sym =
+      some (if sym then symmetrize (specCcg (samplesOfFl rate times) sc ids (binsizeOfFl rate bin) (halfOfFl window bin))
+            else specCcg (samplesOfFl rate times) sc ids (binsizeOfFl rate bin) (halfOfFl window bin)) :=
+  Lemmas.correlogramsFl_eq_spec times sc ids rate bin window sym hr hsorted hlen hdom hb
+
+/-- … with `cluster_ids=None` (non-negative labels): the same over the sorted distinct labels -/
+theorem correlogramsFl_default_ids (times : List Rat) (sc : List Int) (rate bin window : Rat) (sym : Bool)
+    (_hdomF : FlDom times rate bin window)
+    (hr : 0 < rate) (hsorted : times.Pairwise (· ≤ ·)) (hlen : sc.length = times.length) (h : ∀ c ∈ sc, 0 ≤ c)
+    (hb : 1 ≤ binsizeOfFl rate bin) :
+    correlogramsFl times sc none rate bin window sym =
+      some (if sym then symmetrize (specCcg (samplesOfFl rate times) sc (Np.unique sc) (binsizeOfFl rate bin) (halfOfFl window bin))
+            else specCcg (samplesOfFl rate times) sc (Np.unique sc) (binsizeOfFl rate bin) (halfOfFl window bin)) :=
+  Lemmas.correlogramsFl_eq_spec times sc (Np.unique sc) rate bin window sym hr hsorted hlen (Lemmas.unique_inDom sc h) hb
+
+/-- what the driver executes: the float products once (`prodsFl`), truncated to the samples, then
+`correlogramsOfInts` — the same value as `correlogramsFl` -/
+theorem correlogramsFl_as_run (times : List Rat) (sc : List Int) (ids : Option (List Nat)) (rate bin window : Rat)
+    (sym : Bool) :
+    samplesOfFl rate times = (prodsFl rate times).map truncInt ∧
+    correlogramsFl times sc ids rate bin window sym =
+      correlogramsOfInts ((prodsFl rate times).map truncInt) (binsizeOfFl rate bin) (winsizeBinsFl window bin)
+        times sc ids rate sym :=
+  Lemmas.correlogramsFl_as_run times sc ids rate bin window sym
+
+/-- a bin shorter than one sample (after the float product and truncation) fails `assert binsize >= 1` -/
+theorem correlogramsFl_rejects (times : List Rat) (sc : List Int) (ids : Option (List Nat)) (rate bin window : Rat)
+    (sym : Bool) (hb : binsizeOfFl rate bin < 1) : correlogramsFl times sc ids rate bin window sym = none :=
+  Lemmas.correlogramsFl_rejects times sc ids rate bin window sym hb
+
+/-- the spike samples keep the order of the spike times (rounding and truncation are monotone), one per spike -/
+theorem samplesOfFl_sorted (rate : Rat) (times : List Rat) (hr : 0 < rate) (hs : times.Pairwise (· ≤ ·)) :
+    (samplesOfFl rate times).Pairwise (· ≤ ·) ∧ (samplesOfFl rate times).length = times.length :=
+  ⟨Lemmas.samplesOfFl_sorted rate times hr hs, Lemmas.samplesOfFl_length rate times⟩
+
+/-- the number of bins is odd and at least 1 for EVERY window and bin (both are clipped to [1e-5, 1e5] s first):
+`winsize_bins = 2·half + 1` with `half = trunc(fl(fl(.5·w)/b)) ≥ 0` — the two asserts after ccg.py:131 never fail -/
+theorem winsizeFl_spec (window bin : Rat) :
+    0 ≤ truncInt (halfQuotFl window bin) ∧
+    winsizeBinsFl window bin = 2 * (halfOfFl window bin : Int) + 1 ∧
+    (halfOfFl window bin : Int) = truncInt (halfQuotFl window bin) :=
+  Lemmas.winsizeFl_spec window bin
+
+/-- WHERE ROUNDING CHANGES NOTHING.  On the sample grid (`GridOK`) with sample numbers and bin below 2^53, a window
+that is a double and `.5·window/bin` a 53-bit number (`FlExact`) every float operation is exact: the integers of
+the float model are those of the exact-rational model `Model/C15b.lean` … -/
+theorem fl_eq_exact (times : List Rat) (rate bin window : Rat) (T : List Int) (B : Int)
+    (g : GridOK times rate bin window T B) (x : FlExact bin window T B) :
+    samplesOfFl rate times = samplesOf rate times ∧ binsizeOfFl rate bin = binsizeOf rate bin ∧
+    winsizeBinsFl window bin = winsizeBins window bin :=
+  Lemmas.fl_eq_exact times rate bin window T B g x
+
+/-- … the two models of the whole call coincide … -/
+theorem correlogramsFl_eq_Q (times : List Rat) (sc : List Int) (ids : Option (List Nat)) (rate bin window : Rat)
+    (T : List Int) (B : Int) (g : GridOK times rate bin window T B) (x : FlExact bin window T B) (sym : Bool) :
+    correlogramsFl times sc ids rate bin window sym = correlogramsQ times sc ids rate bin window sym :=
+  Lemmas.correlogramsFl_eq_Q times sc ids rate bin window T B g x sym
+
+/-- … and THE PROPERTY IN ITS OWN UNITS (`correlogramsQ_eq`) holds of the float model: pair counts by
+`⌊(t_b − t_a)/bin⌋` in seconds, up to the half window `⌊window/(2·bin)⌋`. -/
+theorem correlogramsFl_seconds (times : List Rat) (sc : List Int) (ids : List Nat) (rate bin window : Rat)
+    (T : List Int) (B : Int) (g : GridOK times rate bin window T B) (x : FlExact bin window T B)
+    (hsorted : times.Pairwise (· ≤ ·)) (hlen : sc.length = times.length) (hdom : InDom sc ids) (sym : Bool) :
+    correlogramsFl times sc (some ids) rate bin window sym =
+      some (if sym then symmetrize (specSeconds times sc ids bin (halfOf window bin))
+            else specSeconds times sc ids bin (halfOf window bin)) :=
+  Lemmas.correlogramsFl_seconds times sc ids rate bin window T B g x hsorted hlen hdom sym
+
+/-! Non-vacuity.  `d01` = the double 0.1, `d005` = 0.05, `d0001` = 0.001 as exact rationals. -/
+/-- bin 0.1 s, window 2 s: the exact quotient of the doubles is below 10 (19 bins), the float quotient is 10
+(21 bins: what the code returns) -/
+example : winsizeBinsFl 2 (3602879701896397 / 36028797018963968) = 21 ∧
+    winsizeBins 2 (3602879701896397 / 36028797018963968) = 19 := by decide +kernel
+/-- rate 30 kHz, bin 1 ms: `fl(30000 · 0.001) = 30`; window 0.5 s: 501 bins; a non-grid spike time -/
+example : binsizeOfFl 30000 (1152921504606847 / 1152921504606846976) = 30 ∧
+    winsizeBinsFl (1 / 2) (1152921504606847 / 1152921504606846976) = 501 ∧
+    samplesOfFl 30000 [3602879701896397 / 36028797018963968, 1 / 3] = [3000, 10000] := by decide +kernel
+example : FlDom [0, 3602879701896397 / 36028797018963968, 1 / 4] 10 (3602879701896397 / 36028797018963968) 2 := by
+  decide +kernel
+example : correlogramsFl [0, 3602879701896397 / 36028797018963968, 1 / 4, 11 / 10] [0, 0, 0, 0] none 10
+    (3602879701896397 / 36028797018963968) (1 / 2) false = some [[[0, 2, 1]]] := by decide +kernel
+example : samplesOfFl 10 [0, 3602879701896397 / 36028797018963968, 1 / 4, 11 / 10] = [0, 1, 2, 11] ∧
+    binsizeOfFl 10 (3602879701896397 / 36028797018963968) = 1 ∧
+    halfOfFl (1 / 2) (3602879701896397 / 36028797018963968) = 2 := by decide +kernel
+example : FlExact (1/2) (3/2) [0, 0, 1, 3, 4] 2 where
+  samplesFit := by
+    intro a ha
+    have : a = 0 ∨ a = 1 ∨ a = 2 ∨ a = 3 ∨ a = 4 := by simp at ha; omega
+    rcases this with rfl | rfl | rfl | rfl | rfl <;> decide
+  binFit := by decide
+  windowDouble := ⟨3, -1, by decide, by decide +kernel⟩
+  quotDouble := ⟨3, -1, by decide, by decide +kernel⟩
+/-- on that input (GridOK and FlExact both hold, see above) the float model returns the seconds-level pair counts -/
+example : correlogramsFl [0, 0, 1/4, 3/4, 1] [7, 2, 7, 2, 7] (some [7, 5, 2]) 4 (1/2) (3/2) false =
+    some (specSeconds [0, 0, 1/4, 3/4, 1] [7, 2, 7, 2, 7] [7, 5, 2] (1/2) 1) := by decide +kernel
+
 end PhyVerif.C15
+
+/-! ## IEEE-754 binary64 rounding (`Model/Fl.lean`), shared with C16 — tied to the float unit by the
+correspondence stream `fl` of this property's check -/
+namespace PhyVerif.Fl
+
+/-- REPRESENTABLE: the result is zero (exactly for `q = 0`) or `± m · 2^e` with `2^52 ≤ m < 2^53` -/
+theorem roundDouble_representable (q : Rat) :
+    (q = 0 ∧ roundDouble q = 0) ∨ (q ≠ 0 ∧ Normal53 (roundDouble q)) :=
+  Lemmas.roundDouble_representable q
+
+/-- BINARY64: for `q = 0` or `2^-1022 ≤ |q| < 2^1024 − 2^970` (`InRange`) the exponent stays inside the format:
+the result is zero or a normal double (no overflow, no subnormal).  Outside `InRange` the hardware returns a
+subnormal (less precision) or `±inf`; `roundDouble` does not model that. -/
+theorem roundDouble_binary64 (q : Rat) (h : InRange q) :
+    (q = 0 ∧ roundDouble q = 0) ∨ (q ≠ 0 ∧ NormalBinary64 (roundDouble q)) :=
+  Lemmas.roundDouble_binary64 q h
+
+/-- HALF AN ULP: `|roundDouble q − q| ≤ 2^(e−1)` where `2^e` is the unit in the last place of `q`'s binade,
+`2^(e+52) ≤ |q| < 2^(e+53)` -/
+theorem roundDouble_half_ulp (q : Rat) (hq : q ≠ 0) :
+    absR (roundDouble q - q) ≤ pow2 (ulpExp q - 1) ∧
+    pow2 (ulpExp q + 52) ≤ absR q ∧ absR q < pow2 (ulpExp q + 53) :=
+  ⟨Lemmas.roundDouble_half_ulp q hq, Lemmas.ulpExp_spec q hq⟩
+
+/-- … hence a relative error of at most `2^-53`, for every `q` -/
+theorem roundDouble_rel (q : Rat) : absR (roundDouble q - q) ≤ pow2 (-53) * absR q :=
+  Lemmas.roundDouble_rel q
+
+/-- NEAREST: no number with at most 53 significant bits (any exponent) is closer to `q`.  Every finite binary64
+number, normal or subnormal, is such a number (`IsDouble`), and on `InRange` the result is itself a normal double
+(`roundDouble_binary64`): it is then A nearest double. -/
+theorem roundDouble_nearest (q r : Rat) (hr : IsDouble r) : absR (roundDouble q - q) ≤ absR (r - q) :=
+  Lemmas.roundDouble_nearest q r hr
+
+/-- TIES TO EVEN: if another 53-bit number is exactly as close, the result is the one with the even significand -/
+theorem roundDouble_tie_even (q r : Rat) (hr : IsDouble r) (hne : r ≠ roundDouble q)
+    (hd : absR (r - q) = absR (roundDouble q - q)) :
+    ∃ (m e : Int), 2 ^ 52 ≤ m ∧ m < 2 ^ 53 ∧ m % 2 = 0 ∧ absR (roundDouble q) = (m : Rat) * pow2 e :=
+  Lemmas.roundDouble_tie_even q r hr hne hd
+
+/-- MONOTONE -/
+theorem roundDouble_mono (p q : Rat) (h : p ≤ q) : roundDouble p ≤ roundDouble q :=
+  Lemmas.roundDouble_mono p q h
+
+/-- IDENTITY on the 53-bit numbers, hence IDEMPOTENT; the results are 53-bit numbers -/
+theorem roundDouble_id (x : Rat) (h : IsDouble x) : roundDouble x = x :=
+  Lemmas.roundDouble_of_isDouble x h
+
+theorem roundDouble_idem (q : Rat) : roundDouble (roundDouble q) = roundDouble q ∧ IsDouble (roundDouble q) :=
+  ⟨Lemmas.roundDouble_idem q, Lemmas.roundDouble_isDouble q⟩
+
+/-- ODD SYMMETRY -/
+theorem roundDouble_neg (q : Rat) : roundDouble (-q) = -roundDouble q :=
+  Lemmas.roundDouble_neg q
+
+/-- integers up to 2^53 in magnitude are not rounded; halving a double is exact -/
+theorem roundDouble_exact_cases (z : Int) (h : z.natAbs ≤ 2 ^ 53) (x : Rat) (hx : IsDouble x) :
+    roundDouble (z : Rat) = z ∧ roundDouble (1 / 2 * x) = 1 / 2 * x :=
+  ⟨Lemmas.roundDouble_intCast z h, Lemmas.roundDouble_half x hx⟩
+
+/-- the executable test used by the driver decides `IsDouble` -/
+theorem isDoubleB_iff (x : Rat) : isDoubleB x = true ↔ IsDouble x :=
+  Lemmas.isDoubleB_iff x
+
+/-! Non-vacuity: 0.1, a tie resolved to the even neighbour (2^53 + 1 → 2^53, 2^53 + 3 → 2^53 + 4), an integer
+beyond 2^53, a negative number, the range predicate. -/
+example : roundDouble (1 / 10) = 3602879701896397 / 36028797018963968 := by decide +kernel
+/-- 0.1 = 7205759403792794 · 2^-56: a normal double -/
+example : NormalBinary64 (roundDouble (1 / 10)) :=
+  ⟨7205759403792794, -56, by decide, by decide, by decide, by decide, by decide +kernel⟩
+example : ulpExp (1 / 10) = -56 ∧ absR (roundDouble (1 / 10) - 1 / 10) ≤ pow2 (-57) := by decide +kernel
+example : roundDouble (1 / 3) ≤ roundDouble (1 / 3 + 1 / 1000000000000000000) ∧
+    roundDouble (roundDouble (1 / 3)) = roundDouble (1 / 3) ∧ roundDouble (-(1 / 3)) = -roundDouble (1 / 3) := by
+  decide +kernel
+example : roundDouble 9007199254740993 = 9007199254740992 ∧ roundDouble 9007199254740995 = 9007199254740996 ∧
+    roundDouble (-9007199254740995) = -9007199254740996 := by decide +kernel
+example : IsDouble (9007199254740994 : Rat) := ⟨4503599627370497, 1, by decide, by decide +kernel⟩
+example : absR ((9007199254740994 : Rat) - 9007199254740993) = absR (roundDouble 9007199254740993 - 9007199254740993) := by
+  decide +kernel
+example : InRange (1 / 10) ∧ ¬ InRange (pow2 (-1023)) ∧ ¬ InRange (pow2 1024 - pow2 970) ∧ InRange 0 := by
+  decide +kernel
+example : roundDouble (1 / 2 + 1 / 18014398509481984) = 1 / 2 := by decide +kernel
+
+end PhyVerif.Fl
